@@ -83,7 +83,27 @@ def run(ctx):
         cases.append(c[:-1] + [" ".join(ops)])
     m, i = ctx.correspond(cases, project=project, label="preserve")
     nt = sum(check_case(ctx, c, o) for c, o in zip(cases, i))
-    ctx.evaluations = len(cases)
+    # wiring: the host-bit values given to FileAnonymizer / main reach the right family (text level)
+    import ipaddress
+    from . import textgen, linegen
+    wl = ["a 203.0.113.77 2001:db8:85a3:7:8:8a2e:370:7334 b\n", "c 10.20.30.40 fe80::1234:5678 198.51.100.200 ::ffff\n"]
+    wcases = []
+    for b4, b6 in [(8, 16), (16, 8), (0, 64), (24, 0), (8, 8), (1, 127)]:
+        wcases.append(textgen.pipe(wl, flags="a", salt=rng.choice(ipgen.SALTS), b4=b4, b6=b6))
+    wm, wi = ctx.correspond(wcases, project=lambda c, o: textgen.norm(o), label="wiring-host-bits")
+    for c, out in zip(wcases, wi):
+        b4, b6 = int(c[8]), int(c[9])
+        if out.startswith("RAISED"):
+            ctx.fail("processing raised", c[:11], out, label="impl")
+            continue
+        for l, o in zip(wl, textgen.outlines(out)):
+            for (a1, e1, v1), (a2, e2, v2) in zip(linegen.v4_tokens(l), linegen.v4_tokens(o)):
+                if b4 and (v1 & ((1 << b4) - 1)) != (v2 & ((1 << b4) - 1)):
+                    ctx.fail("IPv4 address %s -> %s: the trailing %d host bits given for IPv4 are not kept" % (l[a1:e1], o[a2:e2], b4), {"line": l, "b4": b4, "b6": b6}, o, label="impl-wiring")
+            for (a1, e1, v1, _k1), (a2, e2, v2, _k2) in zip(linegen.v6_tokens(l), linegen.v6_tokens(o)):
+                if b6 and (v1 & ((1 << b6) - 1)) != (v2 & ((1 << b6) - 1)):
+                    ctx.fail("IPv6 address %s -> %s: the trailing %d host bits given for IPv6 are not kept" % (l[a1:e1], o[a2:e2], b6), {"line": l, "b4": b4, "b6": b6}, o, label="impl-wiring")
+    ctx.evaluations = len(cases) + len(wcases)
     ctx.distinct_nontrivial = nt
     ctx.search_stats = {"cases": len(cases), "inside_addresses_moved": nt}
     ctx.samples = [{"case": cases[0], "impl": i[0]}, {"case": cases[-1], "impl": i[-1]}]
